@@ -73,11 +73,13 @@ def eom_spec(ctx, cs) -> dict | None:
 def rest_ends(cs) -> set:
     """Admissible 'fully ramped down' instants of the channel (both readings of
     which bandwidth governs the last pulse's tail)."""
+    from .c02 import expected_fall_ends
+
     ps = cs.pulse_slots()
     if not ps:
         return {cs.end}
     p = ps[-1]
-    return {max(cs.end, p.tf + fall_time(p, cs, m)) for m in (True, False)}
+    return {max(cs.end, p.tf + fall_time(p, cs, m)) for m in (True, False)} | expected_fall_ends(cs)
 
 
 class C15(Oracle):
